@@ -437,3 +437,44 @@ Proof.
   - intro k. rewrite D. rewrite <- (v_set _ _ V k). unfold memb, idx. reflexivity.
   - intros art d Hd. destruct (list_referrers_spec (reg s) art) as (_ & _ & C & _). auto.
 Qed.
+
+(* ---------- sequential histories: the index lists exactly the live referrers ---------- *)
+
+Definition tracks (st : option index * list N) : Prop :=
+  forall k, memb (fst st) k = negb (k =? 0) && existsb (N.eqb k) (snd st).
+
+Lemma existsb_filter_neq k x l :
+  existsb (N.eqb k) (filter (fun y => negb (y =? x)) l) = negb (k =? x) && existsb (N.eqb k) l.
+Proof.
+  induction l as [|h t IH]; simpl; [now rewrite andb_false_r|].
+  destruct (h =? x) eqn:E; simpl.
+  - apply N.eqb_eq in E. subst h. rewrite IH. destruct (k =? x); reflexivity.
+  - rewrite IH. destruct (k =? h) eqn:E2; simpl; [|reflexivity].
+    apply N.eqb_eq in E2. subst h. now rewrite E.
+Qed.
+
+Lemma seq_op_tracks st c : dkey (cdesc c) <> 0 -> tracks st -> tracks (seq_op st c).
+Proof.
+  intros Hz T k. destruct st as [r live]. unfold tracks in T. simpl in T.
+  assert (F : changes_nonempty [c]) by (constructor; [exact Hz|constructor]).
+  assert (Hm : memb (match apply_changes (idx r) [c] with Updated l => Some l | NoUpdate => r end) k
+               = member_step k (memb r k) c).
+  { destruct (apply_changes (idx r) [c]) as [|l] eqn:E.
+    - pose proof (apply_noupdate_effect (idx r) [c] F E k) as H. unfold member_after in H. simpl in H.
+      unfold memb in *. simpl in *. exact H.
+    - pose proof (apply_updated_effect (idx r) [c] l F E k) as H. unfold member_after in H. simpl in H.
+      unfold memb in *. simpl in *. exact H. }
+  unfold seq_op. destruct c as [d|d]; simpl in *; rewrite Hm, (T k); simpl.
+  - destruct (dkey d =? k) eqn:E.
+    + apply N.eqb_eq in E. subst k. rewrite N.eqb_refl. simpl. apply N.eqb_neq in Hz. now rewrite Hz.
+    + rewrite (N.eqb_sym k (dkey d)), E. reflexivity.
+  - rewrite existsb_filter_neq. rewrite (N.eqb_sym k (dkey d)).
+    destruct (dkey d =? k); simpl; [now rewrite andb_false_r|reflexivity].
+Qed.
+
+Lemma sequential_listing_is_live cs : forall st,
+  changes_nonempty cs -> tracks st -> tracks (fold_left seq_op cs st).
+Proof.
+  induction cs as [|c t IH]; intros st F T; simpl; auto.
+  inversion F; subst. apply IH; auto. now apply seq_op_tracks.
+Qed.
